@@ -153,6 +153,8 @@ type Chain struct {
 	nextSlot int
 	held     map[string]int // principal -> newest generation (1-based) while it had standing / was handed a key
 	ts       int64
+	enc      int // how identities are spelled in the records this chain renders: see spell
+	pathEnc  int // the spelling the path records were rendered with
 }
 
 func buildList(keys *accountdata.AccountKeys, raws []*consensusproto.RawRecordWithId, v recordverifier.AcceptorVerifier) (list.AclList, error) {
@@ -172,7 +174,7 @@ func newChain(w *World) *Chain {
 
 func (c *Chain) fork() *Chain {
 	n := &Chain{w: c.w, raws: append([]*consensusproto.RawRecordWithId(nil), c.raws...), gens: append([]genInfo(nil), c.gens...),
-		invRec: map[string]string{}, invOf: map[string]string{}, nextSlot: c.nextSlot, held: map[string]int{}, ts: c.ts}
+		invRec: map[string]string{}, invOf: map[string]string{}, nextSlot: c.nextSlot, held: map[string]int{}, ts: c.ts, enc: c.enc, pathEnc: c.pathEnc}
 	for k, v := range c.invRec {
 		n.invRec[k] = v
 	}
@@ -184,6 +186,21 @@ func (c *Chain) fork() *Chain {
 	}
 	n.l = must(buildList(c.w.node, n.raws, recordverifier.NewValidateFull()))
 	return n
+}
+
+// spell returns an identity (a marshalled cryptoproto.Key) in one of three semantically equal protobuf
+// encodings: canonical (what PubKey.Marshall writes), with the default-valued key type written explicitly
+// (08 00 <canonical>), or followed by a field the schema does not know (<canonical> 78 01). Another client
+// implementation or encoder version may emit either; every place that resolves identities through
+// KeyStorage.PubKeyFromProto must treat them alike.
+func (c *Chain) spell(id []byte) []byte {
+	switch c.enc % 3 {
+	case 1:
+		return append([]byte{0x08, 0x00}, id...)
+	case 2:
+		return append(append([]byte(nil), id...), 0x78, 0x01)
+	}
+	return id
 }
 
 func (c *Chain) slot() string {
@@ -381,10 +398,10 @@ func (c *Chain) renderRotation(st *Post, removed []string, v string, cur crypto.
 	metaKey, _, _ := crypto.GenerateRandomEd25519KeyPair()
 	rk := &aclrecordproto.AclReadKeyChange{MetadataPubKey: must(metaKey.GetPublic().Marshall())}
 	for _, a := range accs {
-		rk.AccountKeys = append(rk.AccountKeys, &aclrecordproto.AclEncryptedReadKey{Identity: w.accPub[a], EncryptedReadKey: c.encFor(w.pub(a), newKey)})
+		rk.AccountKeys = append(rk.AccountKeys, &aclrecordproto.AclEncryptedReadKey{Identity: c.spell(w.accPub[a]), EncryptedReadKey: c.encFor(w.pub(a), newKey)})
 	}
 	for _, i := range invs {
-		rk.InviteKeys = append(rk.InviteKeys, &aclrecordproto.AclEncryptedReadKey{Identity: w.invPub[i], EncryptedReadKey: c.encFor(w.inv[i].GetPublic(), newKey)})
+		rk.InviteKeys = append(rk.InviteKeys, &aclrecordproto.AclEncryptedReadKey{Identity: c.spell(w.invPub[i]), EncryptedReadKey: c.encFor(w.inv[i].GetPublic(), newKey)})
 	}
 	rk.EncryptedMetadataPrivKey = must(newKey.Encrypt(must(metaKey.Marshall())))
 	ri := rotInfo{key: newKey, metaKey: metaKey, accounts: accs, invites: invs}
@@ -468,23 +485,23 @@ func (c *Chain) renderContent(author string, ct Content, st *Post, cur crypto.Sy
 	}
 	switch ct.K {
 	case "PermChange":
-		pc := &aclrecordproto.AclAccountPermissionChange{Identity: w.accPub[ct.T], Permissions: permProto[ct.P]}
+		pc := &aclrecordproto.AclAccountPermissionChange{Identity: c.spell(w.accPub[ct.T]), Permissions: permProto[ct.P]}
 		if alt {
 			return cv(&aclrecordproto.AclAccountPermissionChanges{Changes: []*aclrecordproto.AclAccountPermissionChange{pc}}), cur
 		}
 		return cv(pc), cur
 	case "OwnerChange":
-		return cv(&aclrecordproto.AclOwnershipChange{NewOwnerIdentity: w.accPub[ct.T], OldOwnerPermissions: permProto[ct.P]}), cur
+		return cv(&aclrecordproto.AclOwnershipChange{NewOwnerIdentity: c.spell(w.accPub[ct.T]), OldOwnerPermissions: permProto[ct.P]}), cur
 	case "AccountsAdd":
 		out.keyTo = append(out.keyTo, keyGift{ct.T, len(out.rot) > 0})
-		return cv(&aclrecordproto.AclAccountsAdd{Additions: []*aclrecordproto.AclAccountAdd{{Identity: w.accPub[ct.T],
+		return cv(&aclrecordproto.AclAccountsAdd{Additions: []*aclrecordproto.AclAccountAdd{{Identity: c.spell(w.accPub[ct.T]),
 			Permissions: permProto[ct.P], Metadata: meta, EncryptedReadKey: c.encFor(w.pub(ct.T), cur)}}}), cur
 	case "AccountRemove":
 		var removed []string
 		var ids [][]byte
 		if ct.T != "-" {
 			removed = []string{ct.T}
-			ids = [][]byte{w.accPub[ct.T]}
+			ids = [][]byte{c.spell(w.accPub[ct.T])}
 		}
 		rk, ri := c.renderRotation(st, removed, ct.V, cur)
 		out.rot = append(out.rot, ri)
@@ -498,14 +515,14 @@ func (c *Chain) renderContent(author string, ct Content, st *Post, cur crypto.Sy
 		if ct.V == "badident" {
 			ident = w.other(author)
 		}
-		return cv(&aclrecordproto.AclAccountRequestJoin{InviteIdentity: w.accPub[ident], InviteRecordId: c.invId(ct.I),
+		return cv(&aclrecordproto.AclAccountRequestJoin{InviteIdentity: c.spell(w.accPub[ident]), InviteRecordId: c.invId(ct.I),
 			InviteIdentitySignature: sigFor(ct.I, w.pub(ident), ct.V == "badsig"), Metadata: meta}), cur
 	case "InviteJoin":
 		ident := author
 		if ct.V == "badident" {
 			ident = w.other(author)
 		}
-		ij := &aclrecordproto.AclAccountInviteJoin{Identity: w.accPub[ident], InviteRecordId: c.invId(ct.I),
+		ij := &aclrecordproto.AclAccountInviteJoin{Identity: c.spell(w.accPub[ident]), InviteRecordId: c.invId(ct.I),
 			InviteIdentitySignature: sigFor(ct.I, w.pub(ident), ct.V == "badsig"), Metadata: meta, Permissions: permProto[ct.P]}
 		if ct.V != "nokey" {
 			// the honest joiner re-encrypts for itself the key it obtained through the invite
@@ -522,7 +539,7 @@ func (c *Chain) renderContent(author string, ct Content, st *Post, cur crypto.Sy
 			ident = w.other(ident)
 		}
 		out.keyTo = append(out.keyTo, keyGift{ident, len(out.rot) > 0})
-		return cv(&aclrecordproto.AclAccountRequestAccept{Identity: w.accPub[ident], RequestRecordId: c.reqId(ct.Q),
+		return cv(&aclrecordproto.AclAccountRequestAccept{Identity: c.spell(w.accPub[ident]), RequestRecordId: c.reqId(ct.Q),
 			EncryptedReadKey: c.encFor(w.pub(ident), cur), Permissions: permProto[ct.P]}), cur
 	case "RequestDecline":
 		return cv(&aclrecordproto.AclAccountRequestDecline{RequestRecordId: c.reqId(ct.Q)}), cur
@@ -537,7 +554,7 @@ func (c *Chain) renderContent(author string, ct Content, st *Post, cur crypto.Sy
 			slot = w.meta.InvIds[0]
 		}
 		out.newSlot = true
-		inv := &aclrecordproto.AclAccountInvite{InviteKey: w.invPub[slot], Permissions: permProto[ct.P]}
+		inv := &aclrecordproto.AclAccountInvite{InviteKey: c.spell(w.invPub[slot]), Permissions: permProto[ct.P]}
 		if ct.V == "req" || ct.V == "reqkey" {
 			inv.InviteType = aclrecordproto.AclInviteType_RequestToJoin
 			if ct.V == "reqkey" { // ill-matched: a request-to-join invite that carries a read key ciphertext
@@ -565,7 +582,7 @@ func (c *Chain) renderContent(author string, ct Content, st *Post, cur crypto.Sy
 func (c *Chain) sign(author string, contents []*aclrecordproto.AclContentValue) (*consensusproto.RawRecord, *consensusproto.RawRecordWithId) {
 	data := must((&aclrecordproto.AclData{AclContent: contents}).MarshalVT())
 	c.ts++
-	rec := &consensusproto.Record{PrevId: c.l.Head().Id, Identity: c.w.accPub[author], Data: data, Timestamp: c.ts}
+	rec := &consensusproto.Record{PrevId: c.l.Head().Id, Identity: c.spell(c.w.accPub[author]), Data: data, Timestamp: c.ts}
 	payload := must(rec.MarshalVT())
 	raw := &consensusproto.RawRecord{Payload: payload, Signature: must(c.w.acc[author].SignKey.Sign(payload))}
 	rawBytes := must(raw.MarshalVT())
